@@ -352,7 +352,113 @@ func famHistory(g *sgen, i int) J {
 	return J{"label": "history", "unordered": unordered, "cfg": J{"kind": "both"}, "world": w, "steps": steps}
 }
 
-var families = map[string]family{"create": famCreate, "history": famHistory, "ids": famIds, "missing": famMissing, "inbox": famInbox, "outbox": famOutbox, "send": famSend, "get": famGet, "gate": famGate}
+// C06: what a federated peer may and may not do
+func famAuthority(g *sgen, i int) J {
+	w := g.baseWorld()
+	w["fedCallbacks"] = g.cbConfig([]string{"Update", "Accept", "Undo"})
+	if g.r.chance(70) {
+		w["fedCallbacks"] = J{"wrapped": asList([]interface{}{"Update", "Delete", "Accept", "Undo"}), "other": []interface{}{}, "onFollow": 0.0}
+	}
+	hosts := []string{"b.example", "b.example", "b.example:8443", "B.EXAMPLE", "sub.b.example", "c.example"}
+	at := func(h, p string) string { return "https://" + h + p }
+	var a J
+	switch i % 4 {
+	case 0: // Update / Delete across hosts
+		ty := g.r.pick([]string{"Update", "Delete"})
+		ah := g.r.pick(hosts)
+		a = J{"type": ty, "id": at(ah, fmt.Sprintf("/activities/%d", g.r.intn(100)))}
+		var objs []interface{}
+		for k, n := 0, 1+g.r.intn(3); k < n; k++ {
+			oh := ah
+			if g.r.chance(35) {
+				oh = g.r.pick(hosts)
+			}
+			oid := at(oh, fmt.Sprintf("/notes/u%d", k))
+			if ty == "Update" || g.r.bool() {
+				objs = append(objs, J{"type": "Note", "id": oid, "content": "upd"})
+			} else {
+				objs = append(objs, oid)
+			}
+		}
+		a["object"] = asList(objs)
+	case 1: // Accept of a Follow
+		a = J{"type": "Accept", "id": remote(fmt.Sprintf("/activities/%d", g.r.intn(100)))}
+		store := jmap(w["store"])
+		switch g.r.intn(6) {
+		case 0:
+			delete(store, local("/activities/f1"))
+			if g.r.bool() {
+				w["getMissing"] = "nil"
+			}
+		case 1:
+			store[local("/activities/f1")] = J{"type": "Note", "id": local("/activities/f1"), "content": "not a follow"}
+		case 2:
+			store[local("/activities/f1")] = J{"type": "Follow", "id": local("/activities/f1"), "actor": dave, "object": bob}
+		case 3:
+			store[local("/activities/f1")] = J{"type": "Follow", "id": local("/activities/f1"), "actor": alice, "object": carol}
+		case 4:
+			store[local("/activities/f1")] = J{"type": "Follow", "id": local("/activities/f1"), "actor": asList([]interface{}{dave, alice}), "object": asList([]interface{}{carol, bob, remote("/users/bea")})}
+		}
+		var objs []interface{}
+		for k, n := 0, 1+g.r.intn(2); k < n; k++ {
+			switch g.r.intn(5) {
+			case 0, 1:
+				objs = append(objs, J{"type": "Follow", "id": local("/activities/f1"), "actor": alice, "object": bob})
+			case 2:
+				objs = append(objs, remote("/activities/f2"))
+			case 3:
+				objs = append(objs, J{"type": "Follow", "id": local("/activities/f1"), "actor": carol, "object": bob})
+			default:
+				objs = append(objs, J{"type": "Note", "id": remote("/notes/x"), "content": "x"})
+			}
+		}
+		a["object"] = asList(objs)
+	case 2: // Undo with actor sets
+		a = J{"type": "Undo", "id": remote(fmt.Sprintf("/activities/%d", g.r.intn(100)))}
+		rem := jmap(w["remote"])
+		pool := []string{bob, remote("/users/bea"), carol}
+		var undone []interface{}
+		for k, n := 0, 1+g.r.intn(2); k < n; k++ {
+			var as []interface{}
+			for _, p := range pool {
+				if g.r.chance(45) {
+					as = append(as, g.ref(p, "Person", g.r.chance(25)))
+				}
+			}
+			uid := remote(fmt.Sprintf("/activities/undone%d", k))
+			doc := J{"type": "Like", "id": uid, "object": local("/notes/1")}
+			if len(as) > 0 || g.r.chance(70) {
+				if as == nil {
+					as = []interface{}{}
+				}
+				doc["actor"] = asList(as)
+			}
+			rem[uid] = doc
+			undone = append(undone, g.ref(uid, "Like", g.r.chance(30)))
+		}
+		a["object"] = asList(undone)
+	default: // any handled type: who is asked about
+		a = g.inboxActivity(inboxTypes[(i/4)%len(inboxTypes)], w)
+	}
+	if _, ok := a["actor"]; !ok || i%4 == 3 {
+		var actors []interface{}
+		pool := []string{bob, remote("/users/bea"), carol}
+		for k, n := 0, 1+g.r.intn(3); k < n; k++ {
+			actors = append(actors, g.ref(pool[k], "Person", g.r.chance(40)))
+		}
+		a["actor"] = asList(actors)
+	}
+	if g.r.chance(30) {
+		w["blockedIds"] = asList([]interface{}{g.r.pick([]string{bob, remote("/users/bea"), carol, fmt.Sprint(a["id"])})})
+	}
+	if _, ok := a["to"]; !ok && g.r.bool() {
+		a["to"] = alice
+	}
+	return J{"label": "authority-" + fmt.Sprint(a["type"]), "cfg": J{"kind": "both"}, "world": w,
+		"steps": []interface{}{step("postInbox", "POST", g.header(true), "/users/alice/inbox", a)}}
+}
+
+var families = map[string]family{"authority": famAuthority, "create": famCreate, "history": famHistory, "ids": famIds, "missing": famMissing, "inbox": famInbox, "outbox": famOutbox, "send": famSend, "get": famGet, "gate": famGate}
 
 // args: <prop> <count> <maxFaultsPerScenario> fam1,fam2,...
 func genPub(r *rng, thorough bool, args []string, yield func(in J)) {
